@@ -18,7 +18,10 @@ EXPLANATION = (
     "entry is built with a string sort prefix put in front. R06c: the report formatter enumerates commits of a build only "
     "through RBuild.get_printable_rcommits, which filters on is_explicit; the 'not merged' set is filtered on is_explicit and on "
     "absence from this branch; is_explicit is the value of the search predicate on that commit, and the predicate is "
-    "`search_text in commit.message`."
+    "`search_text in commit.message`. R06d (cache discipline, a structural necessary condition of the attribution clauses): the "
+    "per-repository caches of classified commits are written only by the registration step of the branch reader; the list "
+    "cached under visited_commits belongs to an accumulator already popped off the live stack; a list read back from the "
+    "cache is only iterated / tested / copied, never bound to an attribute that is grown in place nor mutated."
 )
 
 
@@ -194,3 +197,181 @@ def run(cx):
     sp = [f for m, q, f in repo.functions({REL}) for n in walk_local(f) if isinstance(n, ast.Assign) and is_name(n.targets[0], "search_predicate") and isinstance(n.value, ast.Lambda) for f in [n]]
     ok = len(sp) == 1 and norm(sp[0].value.body) == f"search_text in {sp[0].value.args.args[0].arg}.message"
     cx.ob("R06c", sp[0] if sp else REL, ok, "a commit matches iff the search text occurs in its message" if ok else "search predicate is not `search_text in commit.message`")
+    cx.guard(_r06d, cx, repo, rb[0])
+
+
+_COPIERS = {"list", "tuple", "sorted", "set", "frozenset", "dict", "len", "any", "all", "bool", "iter", "enumerate", "reversed", "sum", "min", "max", "isinstance", "repr", "str"}
+_CACHES = ("done_commits", "visited_commits", "selected_commits")
+
+
+def _r06d(cx, repo, rb):
+    """Cache discipline of the per-repository commit caches.
+
+    The caches hold the classification of commits made while reading lower-sorted branches and are consulted instead of
+    re-examining a commit.  A value stored there is therefore frozen: (1) the caches are written only by the branch reader,
+    write-once (guarded by `not in` assertions); (2) the list stored under visited_commits is the parents list of an
+    accumulator that has been popped off the live DFS stack; (3) a value read back from visited_commits is only iterated /
+    tested / copied - binding it to an attribute that has in-place mutation sites (the accumulators' rc_parents) or
+    mutating it would change the cached ancestors of every commit sharing it.
+    """
+    cx.rule("R06d", "cached classifications of commits are frozen: written once by the branch reader, never aliased into a live accumulator")
+    cache_cls = cx.cls(REL, "RGraph._RepoCache", "R06d") if repo.has(REL, "RGraph._RepoCache") else None
+    # (1) who may write
+    n_writes = 0
+    for m, q, f in repo.functions({REL}):
+        for n in walk_local(f):
+            tgt = None
+            if isinstance(n, (ast.Assign, ast.AugAssign, ast.Delete)):
+                tl = n.targets if not isinstance(n, ast.AugAssign) else [n.target]
+                for t in tl:
+                    b = t.value if isinstance(t, ast.Subscript) else t
+                    if isinstance(b, ast.Attribute) and b.attr in _CACHES:
+                        tgt = (b.attr, "store")
+            elif isinstance(n, ast.Call) and isinstance(n.func, ast.Attribute) and n.func.attr in ("add", "update", "pop", "clear", "discard", "remove", "setdefault", "popitem") \
+                    and isinstance(n.func.value, ast.Attribute) and n.func.value.attr in _CACHES:
+                tgt = (n.func.value.attr, n.func.attr)
+            if tgt is None:
+                continue
+            if f.name == "__init__" and isinstance(n, ast.Assign) and is_self_attr(n.targets[0]):
+                continue
+            n_writes += 1
+            ok = f is rb and tgt[1] in ("store", "add") and not isinstance(n, (ast.AugAssign, ast.Delete))
+            if ok:
+                cx.ob("R06d", n, True, f"{tgt[0]}: written by the registration step of the branch reader")
+            else:
+                cx.ob("R06d", n, False, f"{tgt[0]} is modified ({tgt[1]}) outside the registration step of the branch reader")
+    cx.at_least("R06d", "cache write sites", n_writes, 3)
+    # (2) what is stored under visited_commits
+    stores = [n for n in walk_local(rb) if isinstance(n, ast.Assign) and isinstance(n.targets[0], ast.Subscript) and isinstance(n.targets[0].value, ast.Attribute) and n.targets[0].value.attr == "visited_commits"]
+    cx.need(len(stores) >= 1, "R06d", rb, "store into visited_commits")
+    for s in stores:
+        v = s.value
+        ok = isinstance(v, ast.Attribute) and isinstance(v.value, ast.Name)
+        why = "stored value is not an accumulator's list"
+        if ok:
+            owner = v.value.id
+            blk = parent(s)
+            # owner bound by <stack>.pop() earlier in an enclosing statement list of the same loop iteration
+            binds = [(st, val) for st, val in assignments(rb, owner) if val is not None]
+            ok = len(binds) == 1 and isinstance(binds[0][1], ast.Call) and call_name(binds[0][1]) == "pop" and binds[0][0].lineno < s.lineno
+            why = f"`{owner}` is not taken off the live stack (pop) before its list is cached"
+            if ok:
+                stack = norm(binds[0][1].func.value)
+                later = [c for c in walk_local(rb) if isinstance(c, ast.Call) and call_name(c) in ("append", "insert", "extend") and norm(c.func.value) == stack and any(owner in names_in(a) for a in c.args)]
+                muts = [c for c in walk_local(rb) if isinstance(c, ast.Call) and call_name(c) in MUT and norm(c.func.value) == norm(v) and c.lineno > s.lineno and _same_iteration(c, s)]
+                ok = not later and not muts
+                why = f"`{owner}` is pushed back / its list is mutated after being cached"
+        elif isinstance(v, ast.Call) and call_name(v) in ("list", "tuple") or isinstance(v, (ast.List, ast.ListComp)):
+            ok = True
+        cx.ob("R06d", s, ok, "the cached list belongs to an accumulator already popped off the live stack (nothing appends to it afterwards)" if ok else why)
+    # (3) reads of visited_commits values
+    mut_attrs = set()
+    for m, q, f in repo.functions({REL}):
+        for c in walk_local(f):
+            if isinstance(c, ast.Call) and call_name(c) in MUT and isinstance(c.func.value, ast.Attribute):
+                mut_attrs.add(c.func.value.attr)
+            if isinstance(c, ast.AugAssign) and isinstance(c.target, ast.Attribute):
+                mut_attrs.add(c.target.attr)
+    n_reads = 0
+    for m, q, f in repo.functions({REL}):
+        tainted = {}
+        reads = []
+        for n in walk_local(f):
+            if isinstance(n, ast.Subscript) and isinstance(n.ctx, ast.Load) and isinstance(n.value, ast.Attribute) and n.value.attr == "visited_commits":
+                reads.append(n)
+            elif isinstance(n, ast.Call) and isinstance(n.func, ast.Attribute) and n.func.attr in ("get", "values", "items", "pop", "setdefault") and isinstance(n.func.value, ast.Attribute) and n.func.value.attr == "visited_commits":
+                reads.append(n)
+        work = list(reads)
+        seen = set()
+        while work:
+            r = work.pop()
+            if id(r) in seen:
+                continue
+            seen.add(id(r))
+            n_reads += r in reads
+            p = parent(r)
+            use, ok, detail = _classify_use(r, p, mut_attrs)
+            if use == "bind":
+                nm = p.targets[0].id
+                for u in walk_local(f):
+                    if isinstance(u, ast.Name) and u.id == nm and isinstance(u.ctx, ast.Load) and u.lineno >= p.lineno:
+                        work.append(u)
+                continue
+            if use == "loopvar":
+                # `for k, v in cache.items()` / `for v in cache.values()`: the value variable is the frozen list
+                tv = p.target.elts[-1] if isinstance(p.target, ast.Tuple) else p.target
+                if isinstance(tv, ast.Name):
+                    for u in ast.walk(p):
+                        if isinstance(u, ast.Name) and u.id == tv.id and isinstance(u.ctx, ast.Load):
+                            work.append(u)
+                continue
+            cx.ob("R06d", r, ok, detail, stmt=norm(enclosing_stmt(r))[:90] + f" [{norm(r)[:40]}]")
+    cx.at_least("R06d", "reads of visited_commits", n_reads, 1)
+    # positive control: the accumulators' parents list does have in-place mutation sites (otherwise rule (3) is vacuous)
+    cx.need("rc_parents" in mut_attrs, "R06d", rb, "in-place growth of rc_parents (the reason why aliasing a cached list matters)")
+
+
+MUT = {"append", "extend", "insert", "pop", "remove", "clear", "sort", "reverse", "update", "add", "discard", "setdefault", "popitem"}
+
+
+def _same_iteration(a, b):
+    la, lb = enclosing_loops(a), enclosing_loops(b)
+    return bool(la) and bool(lb) and la[0] is lb[0]
+
+
+def _classify_use(r, p, mut_attrs):
+    """(kind, ok, detail) for one use of a frozen cached list `r` whose syntactic parent is `p`."""
+    if isinstance(p, ast.Call) and isinstance(r, ast.Call) and r.func.attr in ("values", "items") and False:
+        pass
+    if isinstance(r, ast.Call) and r.func.attr in ("values", "items"):
+        if isinstance(p, (ast.For, ast.comprehension)) and p.iter is r:
+            return ("loopvar", True, "") if isinstance(p, ast.For) else ("read", True, "cached lists enumerated in a comprehension")
+        if isinstance(p, ast.Call) and call_name(p) in _COPIERS:
+            return "read", True, "cache view consumed by a copying / reducing builtin"
+        return "read", False, "a view of the cached lists escapes"
+    if isinstance(r, ast.Call) and r.func.attr in ("pop", "setdefault"):
+        return "read", False, f"visited_commits.{r.func.attr}() modifies the cache while reading it"
+    if isinstance(p, (ast.For, ast.comprehension)) and p.iter is r:
+        return "read", True, "the cached list is only iterated"
+    if isinstance(p, ast.Compare) and r in p.comparators and all(isinstance(o, (ast.In, ast.NotIn, ast.Eq, ast.NotEq, ast.Is, ast.IsNot)) for o in p.ops):
+        return "read", True, "membership / equality test on the cached list"
+    if isinstance(p, ast.Compare) and p.left is r:
+        return "read", True, "comparison of the cached list"
+    if isinstance(p, (ast.If, ast.While, ast.UnaryOp, ast.BoolOp, ast.IfExp, ast.Assert)) and not (isinstance(p, ast.IfExp) and r is not p.test):
+        return "read", True, "truth test of the cached list"
+    if isinstance(p, ast.Call) and r in p.args and isinstance(p.func, ast.Name) and p.func.id in _COPIERS:
+        return "read", True, f"consumed by {p.func.id}() (copy / reduction)"
+    if isinstance(p, ast.Call) and isinstance(p.func, ast.Attribute) and p.func.value is r:
+        if p.func.attr in MUT:
+            return "read", False, f"the cached list is mutated in place (.{p.func.attr})"
+        if p.func.attr in ("copy", "index", "count", "__len__", "__contains__", "__iter__"):
+            return "read", True, f".{p.func.attr}() does not modify the cached list"
+        return "read", False, f"unknown method .{p.func.attr}() on the cached list"
+    if isinstance(p, ast.Call) and r in p.args and isinstance(p.func, ast.Attribute) and p.func.attr == "extend":
+        return "read", True, "copied element-wise into another list"
+    if isinstance(p, ast.Subscript) and p.value is r and isinstance(p.ctx, ast.Load):
+        return "read", True, "element / slice read"
+    if isinstance(p, ast.Subscript) and p.value is r:
+        return "read", False, "an element of the cached list is replaced / deleted"
+    if isinstance(p, ast.Starred) or isinstance(p, ast.BinOp):
+        return "read", True, "used to build a new list"
+    if isinstance(p, ast.AugAssign) and p.target is r:
+        return "read", False, "the cached list is extended in place (+=)"
+    if isinstance(p, ast.AugAssign) and p.value is r:
+        return "read", True, "its elements are added to another container"
+    if isinstance(p, ast.Assign) and p.value is r:
+        t = p.targets[0]
+        if len(p.targets) == 1 and isinstance(t, ast.Name):
+            return "bind", True, ""
+        if isinstance(t, ast.Attribute):
+            if t.attr in mut_attrs:
+                return "read", False, f"the cached list object itself becomes `{norm(t)}`, and `.{t.attr}` is grown in place elsewhere: later appends corrupt the cached ancestors shared by other commits"
+            return "read", True, f"aliased as `{norm(t)}`, an attribute that is never modified in place"
+        return "read", False, f"the cached list is stored into `{norm(t)}` (alias of a frozen value)"
+    if isinstance(p, ast.Return):
+        return "read", False, "the cached list is returned (escapes)"
+    if isinstance(p, ast.Call):
+        return "read", False, f"the cached list is passed to {norm(p.func)}() which may keep or modify it"
+    if isinstance(p, ast.Expr):
+        return "read", True, "value unused"
+    return "read", False, f"unrecognised use of the cached list ({type(p).__name__})"
